@@ -69,5 +69,15 @@ func (c *Calcium) WithWorkloadsLockedForVerif(ctx context.Context, ids []string,
 	return c.withWorkloadsLocked(ctx, false, ids, f)
 }
 
+// WithWorkloadLockedForVerif exposes the single-workload lock wrapper (verification harness only).
+func (c *Calcium) WithWorkloadLockedForVerif(ctx context.Context, ID string, f func(context.Context, *types.Workload) error) error {
+	return c.withWorkloadLocked(ctx, ID, false, f)
+}
+
+// WithNodePodLockedForVerif exposes the single-node pod-lock wrapper (verification harness only).
+func (c *Calcium) WithNodePodLockedForVerif(ctx context.Context, nodename string, f func(context.Context, *types.Node) error) error {
+	return c.withNodePodLocked(ctx, nodename, f)
+}
+
 // WALForVerif exposes the WAL (verification harness only).
 func (c *Calcium) WALForVerif() wal.WAL { return c.wal }
